@@ -2218,6 +2218,8 @@ def install(eng):
     reg('ite', lambda e, c, a, b: e.ite(e.truth(c), a, b))
     reg('dom', lambda e, m: Box(TSet(type_of(m).k), type_of(m).dom(to_z3(m))))
     reg('is_none', lambda e, x: e.eq(x, None))
+    # the payload of an optional value (total: meaningful where the value is not None)
+    reg('payload', lambda e, x: wrap(x.ty.t, x.ty.get(x.e)) if isinstance(x, SV) and isinstance(x.ty, TOpt) else x)
 
     def raw_eq(e, a, b):
         ta = type_of(a) or type_of(b)
